@@ -90,14 +90,31 @@ def extra(ex, ck, worst):
     corpus = [b"function foo(a) {}\nfoo(function foo(x){})\n", b"function foo(a) {}\nfoo(3)\n",
               b"x.y.z = 1;\nq.y.z = 2;\nx.y.w();\n", b"function f(a,b) {\n return a.c + b.c;\n}\nf(1, 2);\nf(3);\n",
               b"(function (a, b) { return a; })(1, 2)\n", b"g = function(q) {};\ng(g(1));\n",
-              b"a.b.c.d.e = a.b.c;\n" * 3]
+              b"a.b.c.d.e = a.b.c;\n" * 3,
+              # definition and call on ONE line; immediately-invoked functions behind other text on their line, two on a
+              # line, nested; the parameter text occurring elsewhere on the line
+              b"function f(a){}f(1)\n", b"var r = (function(a){\nreturn a;\n})(1);\n", b"(function(a){})(1);(function(b){})(2)\n",
+              b"(function(a){ (function(b){\n})(2)\n})(1)\n", b"var q = 1; (function(q){})(q)\n", b"g(1);function g(b){}\n",
+              b"var x;function f(a){}f(1)\n", b"fa(1);var x;function f(a){}\n", b"var a;function f(a){};f(f(1))\n"]
+    import re as _re0
+
+    def first_occurrence_elsewhere(seen):
+        """the call site of the second known finding: `parts[def_chunk].replace(args_pattern, b"", 1)` removes the FIRST
+        occurrence of the parameter text on the definition line; true when, in some file of the run, that first
+        occurrence lies before the parameter list of a named function definition"""
+        for _, d, _a in seen:
+            for ln in d.splitlines(keepends=True):
+                for mm in _re0.finditer(rb"(?:function\s+(\w+)|(\w+)\s*=\s*function)\s*\((\s*\w+\s*(?:,\s*\w+\s*)*)\)", ln):
+                    if 0 <= ln.find(mm.group(3)) < mm.start(3):
+                        return True
+        return False
     for data in corpus:
         parts = data.splitlines(keepends=True)
         tc = (b"", parts, [True] * len(parts), b"")
         B = len(data)
         for strategy in ("replace-properties-by-globals", "replace-arguments-by-globals"):
             for cfg in ({}, {"repeat": "always"}, {"repeat": "never"}):
-                for v in ("Y" * 100000, "Y", "Y" + "NY" * 50000, "Y" + "YN" * 50000):
+                for v in ("Y" * 100000, "Y", "Y" + "NY" * 50000, "Y" + "YN" * 50000, "YYN" * 30000):
                     bound = (B + 2) ** 2
                     run1 = ex.one(strategy, cfg, tc, data, v, stream="rewriters", replay=True,
                                   cap=min(bound, 400) + 1, model=False)
@@ -110,6 +127,9 @@ def extra(ex, ck, worst):
                             strategy == "replace-arguments-by-globals" and run1.exc == "CapHit" and grew
                             and data == b"function foo(a) {}\nfoo(function foo(x){})\n" and set(v) == {"Y"}
                             and cfg.get("repeat", "last") != "never") else None
+                        if key is None and (strategy == "replace-arguments-by-globals" and run1.exc == "CapHit" and grew
+                                            and cfg.get("repeat", "last") != "never" and first_occurrence_elsewhere(run1.seen)):
+                            key = "replace-arguments-first-occurrence"
                         ck.violation(f"{strategy} on {data!r} with verdicts {v[:6]}...: {run1.tests} tests "
                                      f"(cap {min(bound, 400)}, bound (B+2)^2 = {bound}), exc={run1.exc}, last file "
                                      f"{len(run1.seen[-1][1])} bytes vs original {B}",
